@@ -737,11 +737,60 @@ def check_enum(ctx, cr, e):
     if fn is None:
         ctx.ob(props, okey0, False, "new_with_raw_value missing")
         return
-    run = fn["runs"][0] if fn.get("runs") else None
-    if run is None or run.get("und"):
-        ctx.ob(props, okey0, None, "undecided: %s" % (run or {}).get("und"))
-        return
     exhaustive = e["exh"] == "true"
+    # N <= 8: one exact analysis per concrete raw value, independent of how the conversion is written
+    concrete = {}
+    for r in fn.get("runs", []):
+        pv = r["part"].get("p0", "")
+        if pv.startswith("="):
+            concrete[int(pv[1:])] = r
+    concrete_ok = False
+    if N <= 8 and len(concrete) == (1 << N):
+        want_by_val = {d: n for n, d in model_by_name.items()}
+        concrete_ok = True
+        for x in range(1 << N):
+            okey = "%s|raw=%d" % (okey0, x)
+            o, prob = single_ret(concrete[x])
+            if o is None:
+                bad_ = (not concrete[x].get("und")) and any(z["k"] != "ret" and not z.get("und") for z in concrete[x]["outs"])
+                ctx.ob(props | ({"C10"} if exhaustive else set()), okey, False if bad_ else None,
+                       "new_with_raw_value(%d) %s" % (x, "panics: " + str(prob) if bad_ else "could not be resolved: " + str(prob)))
+                concrete_ok = concrete_ok and bad_
+                continue
+            v = o["v"]
+            d = None
+            if x in want_by_val:
+                inner = v
+                if not exhaustive:
+                    if v.get("v") != 0 or len(v.get("f", [])) != 1:
+                        d = "raw value %d has the variant %s but the conversion returns %s" % (x, want_by_val[x], json.dumps(v)[:60])
+                    else:
+                        inner = v["f"][0]
+                if d is None:
+                    vi = inner.get("v")
+                    nm = by_idx.get(vi, {}).get("name")
+                    if nm is None or model_by_name.get(nm) != x:
+                        d = "raw value %d returns %s (discriminant %s), expected %s" % (x, nm, model_by_name.get(nm), want_by_val[x])
+            else:
+                if exhaustive:
+                    d = "raw value %d has no variant although the enum is declared exhaustive" % x
+                elif v.get("v") != 1 or len(v.get("f", [])) != 1:
+                    d = "raw value %d has no variant but the conversion returns %s instead of Err(%d)" % (x, json.dumps(v)[:60], x)
+                else:
+                    pb = int_of(v["f"][0])
+                    got = bits_const(pb) if pb is not None else None
+                    if got != x:
+                        d = "Err payload for raw value %d is %s" % (x, got)
+            ctx.ob(props | ({"C10"} if exhaustive else set()), okey, d is None, d or "",
+                   sample={"decl": path, "fn": "new_with_raw_value", "raw": x, "ret": v} if (d is None and x == (1 << N) - 1) else None)
+    run = None
+    for r in fn.get("runs", []):
+        if not r["part"]:
+            run = r
+    if run is None or run.get("und"):
+        if not concrete_ok:
+            ctx.ob(props, okey0, None, "undecided: %s" % (run or {}).get("und"))
+        return
     argsym = "p0" if native else "p0.0"
     argbits = [S(argsym, j) for j in range(N)] + [Z] * (St - N)
     seen = {}
@@ -812,7 +861,8 @@ def check_enum(ctx, cr, e):
         else:
             otherwise = o
     if und and not bad:
-        ctx.ob(props, okey0, None, und)
+        if not concrete_ok:
+            ctx.ob(props, okey0, None, und)
         return
     if bad:
         ctx.ob(props, okey0, False, bad)
@@ -1546,10 +1596,13 @@ def check_total(ctx, cr, decl):
         fn = lst[0]
         if fn.get("generic") or "runs" not in fn:
             continue
+        has_concrete = any(str(v).startswith("=") for r in fn["runs"] for v in r["part"].values())
         for run in fn["runs"]:
             part = run["part"]
             if any(str(v).startswith(">=") for v in part.values()):
                 continue  # the out-of-range index class: its panic is the documented one (C03)
+            if has_concrete and not part:
+                continue  # every concrete raw value is analysed separately and exactly
             okey = "%s::%s|total|%s" % (a, name, ",".join("%s=%s" % kv for kv in sorted(part.items())) or "-")
             if run.get("und"):
                 ctx.ob({"C16"}, okey, None, "undecided: %s" % run["und"])
